@@ -1230,6 +1230,6 @@ def replay(ctx, payload):
 
 MANIFEST = {
     "text": "Lean theorems over ALL nested dict/list/tuple data trees (structural induction, arbitrary depth and row type), all batch sizes b>0 and all event counts: the batches of data_split are exactly the row windows [j*b,(j+1)*b) of every leaf and their number is the minimum over the tree of ceil(n/b) (leaf), MAX_ITER (empty dict/list), 0 (empty tuple) (split_eq, split_count, split_sizes); data_merge of the batches is the data cut after (number of batches)*b rows (merge_split_general), hence equals the data when no empty container limits the iteration or ceil(n/b) <= MAX_ITER (merge_split) and provably loses rows otherwise (merge_split_truncated, split_empty_tuple); batch_call f = f(whole sample) for every f commuting with row windows, and the scalar broadcast rule (batch_call_eq, batch_call_scalar); data_mask keeps exactly the selected rows of every leaf in order (mask_leaf); load_dat_file(savetxt(p)) = p for every particle count / event count / number of files holding disjoint particle groups (load_multi_file, load_save_roundtrip); merged LazyCall batches = eval() (lazy_eq_eager); data_index hit/fallback/path rules. For the code after the fix (15c726c, now in /repo) every statement is proved with NO guard on empty containers, empty extra or the number of batches: splitF_batches, splitF_get, merge_splitF, batch_call_eqF, batch_call_scalarF, lazyIterF_batches, lazy_eq_eagerF (plain LazyCall, _split_extra) and lazy_nested_eq_eagerF (LazyCall of a LazyCall). The model is tied to tf_pwa.data by exact comparison on random trees, real files and LazyCall objects on every run; numpy oracles test the statements directly on the implementation.",
-    "note": "Model = TfPwaV.Data (hand-written; generators = lists of yielded values with the MAX_ITER branch and zip truncation mirrored; fixed variant 'finite list | repeat' selected by observing the tree). Validated, not proved: numpy/tf slicing, concat and boolean_mask act row-wise and keep inner shape/dtype; np.savetxt/loadtxt/save/load exactness; save_data/load_data pickling; tf.data (HeavyCall) batching; LazyFile; ConfigLoader dat_order plumbing (real files, permutations of a 3-body decay, text and npy); load_dat_file order=(0,1,2) (correspondence only). Known findings on the unchanged tree: an empty dict/list stops the iteration after 1000 batches, an empty tuple makes data_split yield nothing, LazyCall with empty extra stops after 1000 batches.",
+    "note": "Model = TfPwaV.Data (hand-written; generators = lists of yielded values with the MAX_ITER branch and zip truncation mirrored; fixed variant 'finite list | repeat' selected by observing the tree). Validated, not proved: numpy/tf slicing, concat and boolean_mask act row-wise and keep inner shape/dtype; np.savetxt/loadtxt/save/load exactness; save_data/load_data pickling; tf.data (HeavyCall) batching; LazyFile; ConfigLoader dat_order plumbing (real files, permutations of a 3-body decay, text and npy); load_dat_file order=(0,1,2) (correspondence only). Finding of this check, repaired in /repo (15c726c, kind 'fixed' in known_findings.jsonl; the unrepaired variant stays in the model as refutation theorems and is reported under its own key if the fix is reverted): an empty dict/list stopped the iteration after 1000 batches, an empty tuple made data_split yield nothing, LazyCall with empty extra stopped after 1000 batches.",
     "technique": "Lean 4 proof by structural induction over nested data trees (unbounded sizes) + exact differential correspondence with tf_pwa.data on random trees/real files + numpy-oracle search on the implementation",
 }
